@@ -248,14 +248,17 @@ class Impl:
         t = self.t(p)
         self.coords.position = np.array(p[0], dtype=float)
         self.sim.test_new_minimum(self.ktn, self.coords, float(p[1]))
+        self.coords.position += 12345.678          # the caller goes on using its work array (the library's own moves do)
         self._send(f"min {t}", self.state(), tag)
 
     def offer_ts(self, ts, plus, minus, tag="") -> None:
         self.ops_done.append(["ts", _plain(ts), _plain(plus), _plain(minus)])
         a, b, c = self.t(ts), self.t(plus), self.t(minus)
         self.coords.position = np.array(ts[0], dtype=float)
-        self.sim.test_new_ts(self.ktn, self.coords, float(ts[1]), np.array(plus[0], dtype=float), float(plus[1]),
-                             np.array(minus[0], dtype=float), float(minus[1]))
+        pa, ma = np.array(plus[0], dtype=float), np.array(minus[0], dtype=float)
+        self.sim.test_new_ts(self.ktn, self.coords, float(ts[1]), pa, float(plus[1]), ma, float(minus[1]))
+        for arr in (self.coords.position, pa, ma):  # the caller goes on using its work arrays
+            arr += 12345.678
         self._send(f"ts {a} {b} {c}", self.state(), tag)
 
     def build_other(self, mins, tss, hist):
